@@ -40,7 +40,7 @@ PROPS = {
     "C16": dict(
         driver="C16",
         model="Model/SockAddr.v",
-        run_fn="run_sacase",
+        run_fn="run_sacase_fixed",
         theorems=["C16_sockaddr_roundtrip_except_unix_path", "C16_h7_unix_path_reads_back_unnamed",
                   "C16_sockaddr_roundtrip_refuted", "C16_sockaddr_roundtrip_fails",
                   "C16_ptr_len_covers_except_short_abstract", "C16_h8_unix_abstract_arrives_padded",
@@ -71,5 +71,36 @@ PROPS = {
         trusted=["std's SocketAddr::{from_pathname, from_abstract_name, as_pathname, as_abstract_name, is_unnamed} "
                  "(modelled by from_pathname/UnAbstract of Model/SockAddr.v; exercised by every Unix case)",
                  "Linux address semantics as stated in kernel_view/wire/kernel_len (coq/Proofs/SockAddrProofs.v)"],
+    ),
+    "C15": dict(
+        driver="C15",
+        model="Model/ReadBufEdit.v",
+        run_fn="run_rbcase",
+        release_too=True,
+        theorems=["C15_readbuf_refines_bounded_vec_step", "C15_readbuf_refines_bounded_vec",
+                  "C15_readbuf_refines_bounded_vec_checked_build", "C15_rejection_changes_nothing",
+                  "C15_edits_confined_to_slot", "C15_reads_confined_to_slot", "C15_release_slot_unchanged"],
+        rule="one splitmix64 stream per case (VERIF_SEED, index): a real ReadBufPool on a real ring with pool_size in "
+             "{1,2,4,8} and buf_size in 1..64 (1, 2 and 64 over-weighted); every slot filled by a real read from a pipe "
+             "(fill 1, capacity-1, capacity or uniform), all unused capacity overwritten with known bytes; one buffer "
+             "(any slot) receives 1..8 calls drawn from truncate / clear / remove (a..b, a..=b, ..b, ..=b, a.., .., "
+             "(Bound,Bound) pairs with Excluded starts; two thirds valid for the current length incl. empty and at either "
+             "end, the rest from {0,1,len-1,len,len+1,len/2,cap,cap+1,usize::MAX-1,usize::MAX}) / set_len (beyond the "
+             "capacity only in the build with debug assertions) / extend_from_slice (0, exactly fitting, one too many, "
+             "cap+1) / spare_capacity_mut / repeated real read into the owned buffer / BufMut::extend_from_slice "
+             "(parts_mut + set_init); then the buffer is dropped and one more read is issued; 1 in 12 cases runs the calls "
+             "on a not yet filled buffer (model tie only, outside the property); non-trivial = owned buffer with at "
+             "least one call; distinct by the Coq case term (which contains the pool memory)",
+        assumptions=["buf_size is a non-zero u32 and pool_size <= 2^15 (hypothesis pool_ok; ReadBufPool::new asks for both)",
+                     "the buffer was delivered by the kernel: pointer = start of slot id < pool_size, length <= buf_size "
+                     "(hypothesis owned_wf, established by init_buffer: lemma init_state_wf)",
+                     "in a build without overflow checks / debug assertions: set_len is called within its documented "
+                     "contract and no range bound needs usize::MAX + 1 (predicate edit_ok; it is True in a build with "
+                     "the checks). The second restriction is a finding: see C15_release_build_remove_wraps_refuted",
+                     "the kernel stores read data only inside the (address, length) it was given and selects only "
+                     "buffers it was handed (kernel behaviour, observed not proved)"],
+        trusted=["std Vec<u8> as the reference in the harness (truncate, clear, drain, extend_from_slice, set_len; "
+                 "drain leaves the bytes beyond the new length untouched)",
+                 "Linux io_uring provided-buffer selection and pipe reads (real kernel, no simulator)"],
     ),
 }
